@@ -22,7 +22,8 @@ import (
 )
 
 func init() {
-	commands["buf-c11"] = func(w string) { runBuf(w) }
+	commands["buf-c11"] = func(w string) { runBuf(w, "C11") }
+	commands["buf-c19"] = func(w string) { runBuf(w, "C19") }
 }
 
 type retained struct {
@@ -113,8 +114,8 @@ func dataPtr(b []byte) uintptr {
 	return uintptr(unsafe.Pointer(&b[:1][0]))
 }
 
-func runBuf(work string) {
-	e := newEnv("C11", "buf", work)
+func runBuf(work, prop string) {
+	e := newEnv(prop, "buf", work)
 	defer e.finish()
 	old := runtime.GOMAXPROCS(1) // one P: sync.Pool hands a returned buffer straight back
 	defer runtime.GOMAXPROCS(old)
@@ -261,6 +262,9 @@ func runBuf(work string) {
 			if sha256.Sum256(it.b) != it.sum {
 				stable[it.kind] = false
 				e.fail("C11-"+it.kind+"-mutated", fmt.Sprintf("%s bytes (%d) retained by user code changed after further traffic", it.kind, len(it.b)), desc)
+				if it.kind == "context-buffer" {
+					e.fail("C19-context-buffer-written-by-later-call", fmt.Sprintf("a caller-supplied context buffer (%d bytes, reply and canary) changed after the call it was given to had returned", len(it.b)), desc)
+				}
 			}
 		}
 		for i, er := range errs {
